@@ -251,7 +251,7 @@ impl Prop for P {
         }
     }
     fn cases(tier: Tier) -> u64 {
-        tier.pick(60_000, 600_000)
+        tier.pick(250_000, 2_500_000)
     }
     fn fixed_cases(tier: Tier) -> Vec<Case> {
         let n = roots().len() as u16;
